@@ -1274,16 +1274,31 @@ theorem rule_refines (rx : RxOracle) (req : Req) {m : MatchCfg} {rule : Rule} (h
             | nil =>
               simp only []
               by_cases hn : a.name = rpcRouteMatchKey
-              · by_cases hv : a.value = []
-                · have : ¬ (a.name = ['s', 'e', 'r', 'v', 'i', 'c', 'e'] ∧ a.value ≠ []) := by simp [hv]
-                  simp [hn, hv, createCommon_all]
-                · have hc : (True ∧ a.value ≠ []) := ⟨trivial, hv⟩
-                  simp only [hn, if_true, hv, if_false, hkey]
-                  rw [if_pos hc]
-                  cases req.hdr ['s', 'e', 'r', 'v', 'i', 'c', 'e'] <;> simp
-              · have : ¬ (a.name = ['s', 'e', 'r', 'v', 'i', 'c', 'e'] ∧ a.value ≠ []) := by
+              · have hn' : a.name = ['s', 'e', 'r', 'v', 'i', 'c', 'e'] := hn.trans hkey
+                by_cases hr : a.regex = false
+                · have hf : (if a.name = rpcRouteMatchKey ∧ a.regex = false then a.value else []) = a.value :=
+                    if_pos ⟨hn, hr⟩
+                  simp only [hf]
+                  by_cases hv : a.value = []
+                  · have hc : ¬ (a.name = ['s', 'e', 'r', 'v', 'i', 'c', 'e'] ∧ a.regex = false ∧ a.value ≠ []) := by
+                      simp [hv]
+                    rw [if_neg hc, if_pos hv, createCommon_all]
+                    simp
+                  · have hc : (a.name = ['s', 'e', 'r', 'v', 'i', 'c', 'e'] ∧ a.regex = false ∧ a.value ≠ []) :=
+                      ⟨hn', hr, hv⟩
+                    rw [if_pos hc, if_neg hv, hkey, hn']
+                    cases req.hdr ['s', 'e', 'r', 'v', 'i', 'c', 'e'] <;> simp
+                · have hf : (if a.name = rpcRouteMatchKey ∧ a.regex = false then a.value else []) = [] :=
+                    if_neg (fun hc2 => hr hc2.2)
+                  simp only [hf]
+                  have hc : ¬ (a.name = ['s', 'e', 'r', 'v', 'i', 'c', 'e'] ∧ a.regex = false ∧ a.value ≠ []) := by
+                    intro hc; exact hr hc.2.1
+                  rw [if_neg hc, if_pos trivial, createCommon_all]
+                  simp
+              · have hc : ¬ (a.name = ['s', 'e', 'r', 'v', 'i', 'c', 'e'] ∧ a.regex = false ∧ a.value ≠ []) := by
                   intro hc; exact hn (hc.1.trans hkey.symm)
-                simp [hn, this, createCommon_all]
+                rw [if_neg hc]
+                simp [hn, createCommon_all]
 
 /-- rule lists built by `NewVirtualHostImpl` match pointwise like the configured routes -/
 theorem mkRules_findIdx (rx : RxOracle) (req : Req) : ∀ (ms : List MatchCfg) (rules : List Rule),
